@@ -21,4 +21,10 @@ int memcmp(const void *a, const void *b, size_t n)
 REQUIRES(n == 0 || (R_OK(a, n) && R_OK(b, n)))
 ASSIGNS()
 ;
+/* src/hex.c helpers */
+void gmssl_secure_clear(void *ptr, size_t len)
+REQUIRES(len == 0 || W_OK(ptr, len))
+ASSIGNS(len != 0: OBJ_UPTO((uint8_t *)ptr, len))
+ENSURES(G_mc < len IMPLIES ((const uint8_t *)ptr)[G_mc] == 0)
+;
 #endif
